@@ -935,3 +935,23 @@ def _run(ctx, rng, thorough):  # noqa: C901, PLR0912, PLR0915
                                     "aux": _aux(rng, 32).hex(), "commit": _rb(rng, 32).hex()})
         ctx.stream("ssa.s2c.toy", s2[0])
         ctx.stream("ssa.s2cv.toy", s2[1])
+
+
+def replay(ctx, rec):
+    """Re-execute a recorded op line / oracle witness; `.py` streams run with the bindings switched off."""
+    res = {"still_fails": False}
+    if rec.get("property_oracle"):
+        w = rec["property_oracle"]
+        ok, detail = ORACLES[w["oracle"]](w["witness"])
+        res.update(oracle=w["oracle"], ok=ok, detail=detail, still_fails=not ok)
+    elif rec.get("op_line"):
+        lib = not (rec.get("stream") or "").endswith((".py", ".toy", ".cof"))
+        with backend(lib):
+            out_impl = impl(rec["op_line"])
+        out = ctx.model(EXE, [rec["op_line"]])
+        res.update(op_line=rec["op_line"], impl=out_impl, model=out[0] if out else None, bindings_serving=lib,
+                   still_fails=out is None or out[0] != out_impl)
+    else:
+        res["note"] = "record names obligations/streams only; re-run the check itself"
+        res["still_fails"] = bool(ctx.broken)
+    return res
